@@ -477,7 +477,7 @@ def _is_popped_key(fn, name: str) -> bool:
     return False
 
 
-def _check_waitqueues(check, an: Analysis):
+def _check_waitqueues(check, an: Analysis, rule: str = 'L2'):
     # HQ: heap discipline on _keys, the popped key indexes _data
     an.cls(HQ)
     an.cls(SD)
@@ -488,12 +488,12 @@ def _check_waitqueues(check, an: Analysis):
         if kind == 'arg':
             heap_ops.append((fn, node, detail))
         elif kind == 'call':
-            check.instance('L2', 'HQ:_keys.%s' % detail, False,
+            check.instance(rule, 'HQ:_keys.%s' % detail, False,
                            '%s:%d' % (fn.module.relpath, node.lineno),
                            'the key heap is mutated by a list method: %s'
                            % ast.unparse(node)[:50])
     names = sorted({d for _f, _n, d in heap_ops})
-    check.instance('L2', 'HQ:heap-discipline', set(names) <= {'heappush', 'heappop', 'bool'}
+    check.instance(rule, 'HQ:heap-discipline', set(names) <= {'heappush', 'heappop', 'bool'}
                    and {'heappush', 'heappop'} <= set(names), where_fn(push),
                    '_keys only sees heappush/heappop: %s' % names)
     ok, n = True, 0
@@ -506,7 +506,7 @@ def _check_waitqueues(check, an: Analysis):
             ast.unparse(value.elts[0]) == 'heappop(self._keys)' and \
             ast.unparse(value.elts[1]) == 'self._data.pop(heappop(self._keys))'
         ok &= good
-    check.instance('L2', 'HQ.pop:min-key-with-own-deque', ok and n > 0, where_fn(pop),
+    check.instance(rule, 'HQ.pop:min-key-with-own-deque', ok and n > 0, where_fn(pop),
                    'returns (heappop(_keys), _data.pop(that key))')
     # a key enters the heap exactly when its deque is created
     hq_push = an.callee(HQ, 'push')
@@ -521,7 +521,7 @@ def _check_waitqueues(check, an: Analysis):
             e.node, ast.Call) and isinstance(e.node.func, ast.Attribute)
             and e.node.func.attr == 'append')
         verdict &= (created == pushed) and appended == 1
-    check.instance('L2', 'HQ.push:key-once-per-deque', verdict, where_fn(push),
+    check.instance(rule, 'HQ.push:key-once-per-deque', verdict, where_fn(push),
                    'heappush happens exactly on the path that creates the deque; the item '
                    'is appended once')
     # SD: popitem(0)
@@ -532,7 +532,7 @@ def _check_waitqueues(check, an: Analysis):
             n += 1
             ok &= rules.value_text(path, len(path.events) - 1, path.outcome[1]) == \
                 'self._data.popitem(0)'
-    check.instance('L2', 'SD.pop:popitem(0)', ok and n > 0, where_fn(sd_pop),
+    check.instance(rule, 'SD.pop:popitem(0)', ok and n > 0, where_fn(sd_pop),
                    'SortedDict.popitem(0) is the smallest key (the default is the largest)')
     sd_push = an.callee(SD, 'push')
     verdict = True
@@ -542,14 +542,14 @@ def _check_waitqueues(check, an: Analysis):
                 e.node, ast.Call) and isinstance(e.node.func, ast.Attribute)
                 and e.node.func.attr == 'append')
             verdict &= appended == 1
-    check.instance('L2', 'SD.push:append-once', verdict, where_fn(sd_push.fn),
+    check.instance(rule, 'SD.push:append-once', verdict, where_fn(sd_push.fn),
                    'the item is appended once to the deque of its key')
     # both store deques (FIFO per key)
     for qn in (HQ, SD):
         push_fn = an.method(qn, 'push')
         made = [n for n in ast.walk(push_fn.node) if isinstance(n, ast.Call)
                 and ast.unparse(n.func) in ('deque', 'collections.deque')]
-        check.instance('L2', '%s.push:deque-per-key' % qn.rsplit('.', 1)[-1],
+        check.instance(rule, '%s.push:deque-per-key' % qn.rsplit('.', 1)[-1],
                        len(made) == 1 and not made[0].args, where_fn(push_fn),
                        'a fresh empty deque per key')
 
